@@ -25,9 +25,9 @@ CHECKS = {
    note="Bounds enforced by Go (panic = violation) plus canaries inside the buffer; sampled inputs.",
    tech="runtime monitoring: round-trip/MTU/canary oracle on the real codecs (checkptr build)"),
  "C06": dict(cat="exploration",
-   text="(a) In-process: structure-aware and mutated hostile inputs at every network entry point (SOCKS5/HTTP/SS-none/SS2022 stream servers and clients incl. keyed-but-malformed plaintext, the HTTP forwarder fed hostile origin replies, all UDP unpackers, address/text parsers); everything that parses is routed through routers using every criterion representation and replied to / relayed one step; oracle = no panic / fatal error / checkptr fault / hang in any goroutine. (b) Live: the real service manager with every server kind behind port-set / domain-set / reject routes is blasted with the hostile corpus over real TCP and UDP sockets; afterwards a genuine exchange through every server must still be served.",
-   note="Sampled inputs (no coverage feedback); tproxy/redirect and kernel faults not driven; a crash in any goroutine ends the child and is attributed through the case log.",
-   tech="runtime monitoring: hostile-input workloads under checkptr build with crash/hang oracle"),
+   text="(a) In-process: structure-aware and mutated hostile inputs at every network entry point (SOCKS5/HTTP/SS-none/SS2022 stream servers and clients incl. keyed-but-malformed plaintext, the HTTP forwarder fed hostile origin replies, all UDP unpackers, address/text parsers); everything that parses is routed through routers using every criterion representation and replied to / relayed one step; oracle = no panic / fatal error / checkptr fault / hang in any goroutine. (b) Live: the real service manager with every server kind behind port-set / domain-set / reject routes is blasted with the hostile corpus over real TCP and UDP sockets; afterwards a genuine exchange through every server must still be served. (c) Fuzz: Go's coverage-guided engine (child binary built with -fuzz) mutates [entry selector][flags][bytes] inputs for 24 entries incl. SS2022 requests / responses / datagrams whose plaintext is the input sealed under a valid key; budget in executions; crasher file = witness.",
+   note="Sampled and coverage-guided inputs; tproxy/redirect and kernel faults not driven; a crash in any goroutine ends the child and is attributed through the case log.",
+   tech="runtime monitoring: hostile-input workloads (sampled + coverage-guided fuzzing engine) under checkptr / instrumented builds with crash/hang oracle"),
  "C08": dict(cat="exploration",
    text="Real cred.Manager over the CredStores of a real SS2022 TCP and UDP server: sequential histories (add/update/delete incl. duplicate keys and same-key updates, reloads of operator-edited / restored / corrupt files, debounced saves on a virtual clock) and concurrent operations; after every step the API listing, real TCP+UDP handshakes for every key of the universe and the store file are compared; concurrent API histories are checked with porcupine against a user-map model; a hook-directed part holds the saver at its verif hook points while further operations land inside the save window, then compares file, listing and handshakes.",
    note="Small universe (4 names x 4 keys); the sequential/concurrent parts call the manager's public methods, the api part goes through the real REST API over loopback; SIGUSR1 delivery is not driven (it calls the same ReloadAll).",
